@@ -447,6 +447,19 @@ void body(vf::Ctx & c)
   for (int d = 0; d < D; ++d) {cd.xTrue[d] = tt[d];}
   if (D == 2) {cd.xTrue[2] = th * axis[2];} else {for (int d = 0; d < 3; ++d) {cd.xTrue[3 + d] = th * axis[d];}}
 
+  // points (and normals) that no correspondence refers to are not part of the problem: optionally they are an
+  // invalid-return marker far away, or NaN
+  if (layout == 2 && (extraS > 0 || extraT > 0)) {
+    const size_t junk = c.s.pick("unmatched_points_are", {3, 1, 1});
+    if (junk != 0) {
+      std::vector<char> su(static_cast<size_t>(Ns), 0), tu(static_cast<size_t>(Nt), 0);
+      for (int r = 0; r < n; ++r) {su[static_cast<size_t>(cd.si[r])] = 1; tu[static_cast<size_t>(cd.ti[r])] = 1;}
+      const S bad = junk == 2 ? std::numeric_limits<S>::quiet_NaN() : static_cast<S>((isFloat ? 1e4 : 1e8) * L);
+      for (int i = 0; i < Ns; ++i) {if (!su[static_cast<size_t>(i)]) {for (int d = 0; d < D; ++d) {cd.src[i][d] = bad;}}}
+      for (int i = 0; i < Nt; ++i) {if (!tu[static_cast<size_t>(i)]) {for (int d = 0; d < D; ++d) {cd.tgt[i][d] = bad; cd.nrm[i][d] = junk == 2 ? bad : cd.nrm[i][d];}}}
+      c.label(junk == 1 ? "unmatched-points-are-far-markers" : "unmatched-points-are-NaN");
+    }
+  }
   // references and domain
   Ref raw = buildRef<S, D>(cd, false), pre = buildRef<S, D>(cd, true);
   if (!raw.inDomain && !pre.inDomain) {c.skip();}
